@@ -975,10 +975,11 @@ impl NodeDeletionEntry {
         daily_log: &mut DailyMutations,
         conn: &Connection,
     ) -> std::result::Result<(), rusqlite::Error> {
-        let query = "DELETE FROM _node WHERE room_id=? AND id=?";
+        //a deletion record only removes the version it names, or an older one
+        let query = "DELETE FROM _node WHERE room_id=? AND id=? AND mdate <= ?";
         let mut stmt = conn.prepare_cached(query)?;
         for node in nodes {
-            stmt.execute((node.room_id, node.id))?;
+            stmt.execute((node.room_id, node.id, node.mdate))?;
             node.write(conn)?;
             daily_log.set_need_update(node.room_id, &node.entity, node.deletion_date);
             daily_log.set_need_update(node.room_id, &node.entity, node.mdate);
